@@ -338,13 +338,20 @@ func genCase(idx int, r *Rng, kr *keyring, st *Stats) *caseSpec {
 	amounts := []uint64{10, 50, 50, 100, 100, 100, 150, 1000}
 	shadow := map[string]uint64{} // generator-side running tally (floor rule), hex key -> tally
 	present := map[string]bool{}
-	if r.Chance(60) {
+	many := nk >= 11 && r.Chance(50) // all keys start as candidates: more than ten qualify
+	if many {
+		c.MinV = pick64(r, 1, 10, 50)
+	}
+	if many || r.Chance(60) {
 		n0 := r.Intn(len(keys) + 1)
+		if many {
+			n0 = len(keys)
+		}
 		perm := shuffled(r, len(keys))
 		for i := 0; i < n0; i++ {
 			hk := hex.EncodeToString(keys[perm[i]])
 			v := amounts[r.Intn(len(amounts))]
-			if r.Chance(8) {
+			if r.Chance(8) && !many {
 				v = 0
 			}
 			if !c.Valid && r.Chance(5) {
